@@ -11,8 +11,8 @@ ID = 'C20'
 LEVEL = 'model_checking'
 ASSUMPTIONS = [
     'in-range moves only; negative absolute indices and out-of-range forward/backward are outside the statement',
-    'state key = (cursor index, number of items materialised from the iterator), read from the private '
-    'queue attribute; when that attribute is unavailable the key degrades to the whole history (no merging)',
+    'state key = cursor index + every instance attribute of the buffer (lengths of lists, values of scalars), so hidden '
+    'state added by a refactoring is part of the key; all sequences without merging validate the key to depth 2-3',
     'token-backed buffers are built exactly as the parser builds them: tokenize(categorize(src))',
 ]
 
@@ -80,8 +80,19 @@ class System:
         return self.tokenize(self.categorize(src)), Model(list(items), list(pos))
 
     def key(self, impl, model):
-        q = getattr(impl, self.qattr, None)
-        return (model.i, len(q) if q is not None else None)
+        # everything the object remembers: every instance attribute except the underlying iterator and callables
+        # (so a cache added by a refactoring becomes part of the state automatically)
+        items = []
+        for name, val in sorted(vars(impl).items()):
+            if callable(val) or hasattr(val, '__next__'):
+                continue
+            if isinstance(val, list):
+                items.append((name, len(val)))
+            elif isinstance(val, (int, str, bool, type(None), tuple)):
+                items.append((name, repr(val)))
+            else:
+                items.append((name, repr(val)[:80]))
+        return (model.i, tuple(items))
 
     # -- menu -----------------------------------------------------------------------------------
     def enabled(self, m):
@@ -233,6 +244,8 @@ def run_shard(shard):
     seqdepth = 2 if shard['tier'] == 'quick' else 3
     if shard['tier'] != 'quick' and init[0] == 'str' and len(init[1]) >= 4:
         seqdepth = 2
+    if shard['tier'] == 'quick' and len(init[1]) <= 2:
+        seqdepth = 3
     r = hist.bfs(sysm, init, depth)
     r2 = hist.sequences(sysm, init, seqdepth)
     acc.evals = r.transitions + r2.transitions
